@@ -4,7 +4,7 @@
    the real library; after every step the description of what each live client emits must equal
    what the recording origin captured. *)
 From Coq Require Import List Arith Bool.
-From ReqV Require Export Model.Settings Gen.CloneTable.
+From ReqV Require Export Model.Settings Model.ReExec Gen.CloneTable.
 Import ListNotations.
 
 Record c19_step := Step {
@@ -14,7 +14,16 @@ Record c19_step := Step {
                                                    whose probe differs from its previous one; the others emitted
                                                    exactly what they emitted before *)
 
-Definition c19_case := list c19_step.
+(* a history of ONE Request object (Model/ReExec.v): request-level setters and executions; an execution
+   carries the client's settings of that moment, the request's retry budget, how many attempts the origin
+   failed, and what the origin received at every attempt: (headers, cookies, form), maps flattened by key *)
+Inductive rx_step :=
+| RSet (u : uop)
+| RExec (c : cl) (budget fails : nat) (obs : list (list nat * list nat * list nat)).
+
+Inductive c19_case :=
+| CProg (l : list c19_step)
+| CReexec (l : list rx_step).
 
 Fixpoint leqb (a b : list nat) : bool :=
   match a, b with
@@ -36,7 +45,7 @@ Definition odesc_eqb (a b : option (list (list nat))) : bool :=
   end.
 
 (* obs: the latest captured probe of every live client *)
-Fixpoint c19_run (st : state) (obs : list (nat * list (list val))) (l : c19_case) : bool :=
+Fixpoint c19_run (st : state) (obs : list (nat * list (list val))) (l : list c19_step) : bool :=
   match l with
   | [] => true
   | s :: t =>
@@ -50,4 +59,28 @@ Fixpoint c19_run (st : state) (obs : list (nat * list (list val))) (l : c19_case
       && c19_run st' obs' t
   end.
 
-Definition c19_check (c : c19_case) : bool := c19_run init_state [] c.
+Definition obs_eqb (a b : list nat * list nat * list nat) : bool :=
+  leqb (fst (fst a)) (fst (fst b)) && leqb (snd (fst a)) (snd (fst b)) && leqb (snd a) (snd b).
+Fixpoint obsl_eqb (a b : list (list nat * list nat * list nat)) : bool :=
+  match a, b with
+  | [], [] => true
+  | x :: a', y :: b' => obs_eqb x y && obsl_eqb a' b'
+  | _, _ => false
+  end.
+Definition flat_sent (s : list (nat * list rval) * list nat * list (nat * list rval)) : list nat * list nat * list nat :=
+  (flat_kv (fst (fst s)), snd (fst s), flat_kv (snd s)).
+
+Fixpoint rx_run (r : rq) (l : list rx_step) : bool :=
+  match l with
+  | [] => true
+  | RSet u :: t => rx_run (uapply r u) t
+  | RExec c b f obs :: t =>
+      let '(r', sents) := rexec gen_prologue c b f r in
+      obsl_eqb (map flat_sent sents) obs && rx_run r' t
+  end.
+
+Definition c19_check (c : c19_case) : bool :=
+  match c with
+  | CProg l => c19_run init_state [] l
+  | CReexec l => rx_run rq0 l
+  end.
